@@ -1,5 +1,7 @@
 package broker
 
+import "time"
+
 // C12 — a completed rebalance assigns each partition to exactly one subscriber.
 
 // checkAssignments: whenever the group is Stable, the assignments the coordinator hands out
@@ -67,7 +69,23 @@ func VsymC12_Assignments() {
 	w := vsymNewWorld("C12", vsym_Param("n0"), vsym_Param("n1"))
 	w.resubscribed = map[string]bool{}
 	for step := 0; step < k; step++ {
-		switch vsym_Choose("op", 4) {
+		switch vsym_Choose("op", vsym_Param("ops")) {
+		case 4: // a member falls silent past its session timeout and the cleanup tick runs
+			st := w.state()
+			if len(w.ids) == 0 || st == nil {
+				vsym_Assume(false)
+			}
+			id := w.ids[vsym_Choose("who", len(w.ids))]
+			if m := st.members[id]; m != nil {
+				m.lastHeartbeat = m.lastHeartbeat.Add(-11 * time.Second)
+			}
+			w.c.cleanupGroups()
+			w.resubscribed = map[string]bool{}
+		case 5: // a client joins with a member id the coordinator does not know (kept from an earlier life)
+			if len(w.ids) >= 3 {
+				vsym_Assume(false)
+			}
+			w.join("ghost-7", vsymSubsFromMask(1+vsym_Choose("subs", 3)))
 		case 0: // a new member joins
 			if len(w.ids) >= 3 {
 				vsym_Assume(false)
